@@ -138,6 +138,7 @@ def run(ctx):
     # ---- D3 ---------------------------------------------------------------
     n = loops.classify_and_judge(db, libfuncs, rep, rule="D3-R-LOOP")
     ne = loops.judge_equality_exits(db, libfuncs, rep, rule="D3-R-LOOP-EQ")
+    loops.judge_rotation_searches(db, libfuncs, rep, rule="D3-R-LOOP-ROTATE")
     rep.extra["loops_classified"] = n
     rep.extra["equality_exit_loops"] = ne
     rep.floor("D3-R-LOOP", 800)
